@@ -397,8 +397,11 @@ class BehavioralRTLIRTypeCheckVisitorL1( bir.BehavioralRTLIRNodeVisitor ):
           node.Type.obj = obj[ int( idx ) ]
           node._is_explicit = True
         else:
-          node._value = int( obj[ int( idx ) ] )
-          node._is_explicit = False if isinstance(node._value, int) else True
+          elem = obj[ int( idx ) ]
+          node._value = int( elem )
+          # only an element that is a Python int may be re-sized by its context;
+          # a BitsN element is a BitsN at run time
+          node._is_explicit = not isinstance( elem, int )
       else:
         node._is_explicit = True
 
